@@ -172,6 +172,20 @@ def battery(fqe, seed, tier):
             except Exception as exc:
                 out[f"detect:{case}"] = {"raise": type(exc).__name__}
         if case % 10 == 0 and spec["norb"] <= 2:
+            # low-filling sectors in seven orbitals (the reference path switches to its low-filling kernels there):
+            # 1- and 2-particle transition RDMs with bra != ket
+            for (na_, nb_) in ((1, 2), (2, 2), (2, 1)):
+                try:
+                    kk = fqe.Wavefunction([[na_ + nb_, na_ - nb_, 7]])
+                    bb = fqe.Wavefunction([[na_ + nb_, na_ - nb_, 7]])
+                    rr = numpy.random.RandomState(1000 * case + 10 * na_ + nb_)
+                    for ww in (kk, bb):
+                        shp = ww.get_coeff((na_ + nb_, na_ - nb_)).shape
+                        ww.set_wfn(strategy="from_data", raw_data={(na_ + nb_, na_ - nb_): (rr.randint(-3, 4, shp) + 1j * rr.randint(-3, 4, shp)).astype(numpy.complex128)})
+                    out[f"lowfill-rdm1:{case}:{na_}:{nb_}"] = enc(kk.rdm("i^ j", brawfn=bb))
+                    out[f"lowfill-rdm2:{case}:{na_}:{nb_}"] = enc(kk.rdm("i^ j^ k l", brawfn=bb))
+                except Exception as exc:
+                    out[f"lowfill-rdm2:{case}:{na_}:{nb_}"] = {"raise": type(exc).__name__}
             try:
                 from openfermion import parity_code
                 out[f"cirqcode:{case}"] = enc(fqe.to_cirq(w, binarycode=parity_code(2 * spec["norb"])))
